@@ -1438,8 +1438,8 @@ def fold_cmp(op: str, a: Term, b: Term) -> Optional[bool]:
         if a[0] == "enum" and b[0] == "enum":
             r = a == b
             return r if op == "is" else not r
-        if a[0] == "class" and b[0] == "class":
-            r = a[1] is b[1]
+        if a[0] in ("class", "builtin") and b[0] in ("class", "builtin"):
+            r = (a[0] == b[0]) and (a[1] is b[1] if a[0] == "class" else a[1] == b[1])
             return r if op == "is" else not r
         return None
     if op in ("==", "!="):
